@@ -5,7 +5,7 @@
    regenerate-and-compare), verifier.AccountBlockTransaction (hash, signature, producer, descendants).
    [Valid] spells the clauses of the property on the block and on what the node knows (ctx). *)
 From ZV Require Import Prelude Ledger Verifier VerifierProofs VerifierSource.
-Require ZV.gen.Pure.
+Require ZV.gen.Pure ZV.gen.PureAccountVerifier.
 Open Scope Z_scope.
 
 (* for all node states (ctx) and all candidate blocks *)
@@ -91,17 +91,17 @@ Proof. vm_compute. repeat split; reflexivity. Qed.
    its model ck_... in theories/Verifier.v; store reads, IsEmbeddedAddress and CheckPoWNonce are inputs of the
    translations, hashes / (hash, height) pairs / headers enter as numbers under any injective encoding (one exists:
    C03_encoding_exists). vcode maps go2coq's error numbers to the verdict codes of the model. *)
-Theorem C03_version_is_the_source : forall v, vcode (ZV.gen.Pure.abv_version v) = ck_version v.
+Theorem C03_version_is_the_source : forall v, vcode (ZV.gen.PureAccountVerifier.abv_version v) = ck_version v.
 Proof. exact version_is_source. Qed.
 Theorem C03_chain_identifier_is_the_source : forall cid expected,
-  vcode (ZV.gen.Pure.abv_chainIdentifier cid expected) = ck_chain cid expected.
+  vcode (ZV.gen.PureAccountVerifier.abv_chainIdentifier cid expected) = ck_chain cid expected.
 Proof. exact chain_is_source. Qed.
-Theorem C03_block_type_is_the_source : forall t emb, vcode (ZV.gen.Pure.abv_blockType t emb) = ck_type t emb.
+Theorem C03_block_type_is_the_source : forall t emb, vcode (ZV.gen.PureAccountVerifier.abv_blockType t emb) = ck_type t emb.
 Proof. exact type_is_source. Qed.
 Theorem C03_amounts_is_the_source : forall t nn a zts to from,
-  vres (ZV.gen.Pure.abv_amounts t nn a zts (from =? 0) to) = ck_amounts t (if nn then Some a else None) zts to from.
+  vres (ZV.gen.PureAccountVerifier.abv_amounts t nn a zts (from =? 0) to) = ck_amounts t (if nn then Some a else None) zts to from.
 Proof. exact amounts_is_source. Qed.
-Theorem C03_pow_is_the_source : forall d emb pow_ok, vcode (ZV.gen.Pure.abv_pow d emb pow_ok) = ck_pow d emb pow_ok.
+Theorem C03_pow_is_the_source : forall d emb pow_ok, vcode (ZV.gen.PureAccountVerifier.abv_pow d emb pow_ok) = ck_pow d emb pow_ok.
 Proof. exact pow_is_source. Qed.
 Theorem C03_verifier_all_is_the_source :
   forall (enc : Z -> Z -> Z), (forall a b a' b', enc a b = enc a' b' -> a = a' /\ b = b') -> enc 0 0 = 0 ->
@@ -112,20 +112,20 @@ Proof. exact all_is_source. Qed.
 Theorem C03_previous_is_the_source :
   forall (enc : Z -> Z -> Z), (forall a b a' b', enc a b = enc a' b' -> a = a' /\ b = b') ->
   forall c b,
-  vcode (ZV.gen.Pure.abv_previous (v_height b) (v_prev b =? 0) (is_emb (v_addr b)) 0
+  vcode (ZV.gen.PureAccountVerifier.abv_previous (v_height b) (v_prev b =? 0) (is_emb (v_addr b)) 0
            (match c_frontier c with Some _ => true | None => false end)
            (match c_frontier c with Some f => enc2 enc f | None => 0 end)
            (enc2 enc (eff_prev b))) = ck_previous c b.
 Proof. exact previous_is_source. Qed.
 Theorem C03_from_hash_is_the_source : forall c b,
-  vcode (ZV.gen.Pure.abv_fromHash (v_type b) 0 (match c_from_to c with Some _ => true | None => false end)
+  vcode (ZV.gen.PureAccountVerifier.abv_fromHash (v_type b) 0 (match c_from_to c with Some _ => true | None => false end)
            (v_addr b) (match c_from_to c with Some to => to | None => 0 end)
            (c_frontier_height c) (c_enf_height c) (c_received c)) = ck_from c b.
 Proof. exact from_is_source. Qed.
 Theorem C03_sequencer_is_the_source :
   forall (hdr : Z -> Z), (forall a a', hdr a = hdr a' -> a = a') ->
   forall c b,
-  vcode (ZV.gen.Pure.abv_sequencer (is_emb (v_addr b)) (v_type b) (match c_next c with Some _ => true | None => false end) 0
+  vcode (ZV.gen.PureAccountVerifier.abv_sequencer (is_emb (v_addr b)) (v_type b) (match c_next c with Some _ => true | None => false end) 0
            (hdr (v_from b)) (match c_next c with Some h => hdr h | None => 0 end)) = ck_sequencer c b.
 Proof. exact sequencer_is_source. Qed.
 (* the tail of verify_block's list of checks is all_model *)
